@@ -57,6 +57,7 @@ type Config struct {
 	YieldP     float64       // probability to yield at a scheduling point
 	MaxConsec  int           // fairness bound (scheduling points without yielding)
 	StepBudget int           // controller decisions; 0 = unlimited
+	ChildFirstP float64      // probability that a newly started goroutine runs first, until it blocks or ends
 	TimerP     float64       // probability that fake time advances although goroutines are runnable
 	IdleLimit  time.Duration // simulated time with nothing runnable => deadlock (default 2h)
 	// PCT > 0 selects priority scheduling (Burckhardt et al.): every goroutine gets a random priority when it
@@ -77,6 +78,7 @@ type Result struct {
 	Steps      int
 	Switches   int
 	TimerFirst int
+	ChildFirst int // goroutines that were run first, ahead of their parents
 	Deadlock   bool
 	Blocked    []string
 	Budget     bool
@@ -110,6 +112,8 @@ type Sim struct {
 	abort  bool
 	mainDone bool
 	sleeping int32
+	sticky     string // id of the goroutine that runs first (child-first scheduling)
+	stickyLeft int
 	// SeqNo is a global event sequence number handed out by Stamp().
 	seq uint64
 }
@@ -353,6 +357,14 @@ func Go(fn func()) {
 		child.park()
 		fn()
 	}()
+	if p != nil && S.cfg.ChildFirstP > 0 && p.quiet == 0 && Float() < S.cfg.ChildFirstP {
+		// child-first: the new goroutine runs (and keeps running at its scheduling points) until it blocks or
+		// ends, before its parent continues - "the background job was already done when ..."
+		S.sticky, S.stickyLeft = id, 4000
+		S.res.ChildFirst++
+		p.park()
+		return
+	}
 	Point("go")
 }
 
@@ -557,7 +569,20 @@ func Run(cfg Config, main func()) Result {
 			}
 		}
 		pi := Intn(len(parked))
-		if cfg.PCT > 0 {
+		stuck := false
+		if S.sticky != "" {
+			stuck = false
+			for i, x := range parked {
+				if x.ID == S.sticky {
+					pi, stuck = i, true
+				}
+			}
+			S.stickyLeft--
+			if !stuck || S.stickyLeft <= 0 {
+				S.sticky = "" // it blocks, has ended, or has had its share
+			}
+		}
+		if cfg.PCT > 0 && !stuck {
 			// highest priority first; priorities are drawn when a goroutine is first seen
 			for _, x := range parked {
 				if !x.hasPr {
